@@ -29,6 +29,8 @@ type genCfg struct {
 	r        *rand.Rand
 	maxLen   int  // container length scale
 	minLen   int  // containers get at least this many elements (count-corruption streams)
+	minimal  bool // everything below the outermost container takes its smallest encoding (count-check boundary)
+	zeroLeaf bool // (internal) inside such a container
 	bigStr   bool // allow strings straddling allocator thresholds
 	depth    int  // remaining struct nesting budget
 	enum32   bool // keep enum values within int32
@@ -131,6 +133,26 @@ func isEnumType(t reflect.Type) bool {
 // gen fills v (addressable) with a random value.
 func (g *genCfg) gen(v reflect.Value) {
 	t := v.Type()
+	if g.zeroLeaf {
+		// smallest encodings: empty strings and containers (non-nil), zero scalars, nil pointers
+		switch t.Kind() {
+		case reflect.Slice:
+			v.Set(reflect.MakeSlice(t, 0, 0))
+			return
+		case reflect.Map:
+			v.Set(reflect.MakeMap(t))
+			return
+		case reflect.Struct:
+			if u := byType[t]; u != nil {
+				for _, f := range u.Fields {
+					g.gen(v.Field(f.Index))
+				}
+			}
+			return
+		default:
+			return
+		}
+	}
 	switch t.Kind() {
 	case reflect.Bool:
 		v.SetBool(g.r.Intn(2) == 0)
@@ -182,6 +204,7 @@ func (g *genCfg) gen(v reflect.Value) {
 		s := reflect.MakeSlice(t, n, n+g.r.Intn(3))
 		sub := *g
 		sub.maxLen = g.maxLen / 3
+		sub.zeroLeaf = g.minimal
 		for i := 0; i < n; i++ {
 			sub.gen(s.Index(i))
 		}
@@ -201,9 +224,12 @@ func (g *genCfg) gen(v reflect.Value) {
 		m := reflect.MakeMapWithSize(t, n)
 		sub := *g
 		sub.maxLen = g.maxLen / 3
+		sub.zeroLeaf = g.minimal
+		ksub := sub
+		ksub.zeroLeaf = false // keys stay distinct
 		for i := 0; i < n; i++ {
 			k := reflect.New(t.Key()).Elem()
-			sub.gen(k)
+			ksub.gen(k)
 			if k.Kind() == reflect.Ptr && k.IsNil() {
 				// nil pointer keys: keep them rare but possible only once
 				k.Set(reflect.New(t.Key().Elem()))
